@@ -35,7 +35,7 @@ def lang_L1():
     B = asset("B", sup="A", steps=[attack_step("e", "defense", ttc=None), attack_step("sb", "or")])
     C = asset("C", steps=[attack_step("t", "or"), attack_step("dc", "defense", ttc=TTC_ENABLED)])
     return lang([A, B, C], [assoc("L", "A", "la", "C", "lc"), assoc("L", "B", "lb", "C", "lcb"),
-                            assoc("R", "A", "up", "A", "down")])
+                            assoc("rel", "A", "up", "A", "down")])
 
 
 LANGS = {"L0": lang_L0, "L1": lang_L1}
@@ -66,11 +66,11 @@ UNIVERSES = {
                      ("AA", "up", [1], "down", [1]), ("AA", "up", [0, 1], "down", [1]),
                      ("AA", "up", [1], "down", [0, 0]), ("AA", "up", [1, 0], "down", [0, 1])],
            "steps": {0: ["s", "u"], 1: ["u"], 2: ["t"]}, "attackers": ["x", None]},
-    "U2": {"lang": "L1", "fields": {"L_A_C": ("la", "lc"), "L_B_C": ("lb", "lcb"), "R": ("up", "down")},
+    "U2": {"lang": "L1", "fields": {"L_A_C": ("la", "lc"), "L_B_C": ("lb", "lcb"), "rel": ("up", "down")},
            "cands": [("A", "n", {}), ("B", "n", {"e": 1.0}), ("C", None, {})],
            "links": [("L_A_C", "la", [0], "lc", [2]), ("L_A_C", "la", [0, 1], "lc", [2]),
-                     ("L_B_C", "lb", [1], "lcb", [2]), ("R", "up", [0], "down", [1]), ("R", "up", [1], "down", [1]),
-                     ("R", "up", [0, 1], "down", [1, 0]), ("R", "up", [1, 1], "down", [0])],
+                     ("L_B_C", "lb", [1], "lcb", [2]), ("rel", "up", [0], "down", [1]), ("rel", "up", [1], "down", [1]),
+                     ("rel", "up", [0, 1], "down", [1, 0]), ("rel", "up", [1, 1], "down", [0])],
            "steps": {0: ["s"], 1: ["s", "sb"], 2: ["t"]}, "attackers": [None, "att"]},
     # every candidate constructed WITHOUT a name (add_asset names it): the library then compares `associations`
     # before `name`, which is where its structural == stops terminating (finding, see floor_C05)
@@ -212,10 +212,10 @@ class BadOp(BaseException):
 class Session:
     def __init__(self, uname, model_name="m"):
         from maltoolbox.model import Model, AttackerAttachment
-        self.U = U = UNIVERSES[uname]
+        self.U = U = UNIVERSES[uname] if isinstance(uname, str) else uname
         self.lg, self.lcf = get_lang(U["lang"])
         self.model = Model(model_name, self.lcf)
-        self.cands = [mini.new_asset(self.lcf, t, n, **d) for (t, n, d) in U["cands"]]
+        self.cands = [mini.new_asset(self.lcf, e[0], e[1], **e[2]) for e in U["cands"]]
         self.atts = [AttackerAttachment(name=n) for n in U["attackers"]]
         for a in self.atts: a.entry_points = []
         self.links = []                         # every association object created, handle = position
@@ -255,7 +255,6 @@ class Session:
         return -1
 
     def _fields(self, s):
-        h = self._h(s)
         names = self.U["fields"].get(type(s).__name__) or tuple(str(k) for k in s._properties.keys())
         return [[f, sorted(self._c(x) for x in getattr(s, f))] for f in names]
 
@@ -306,6 +305,32 @@ class Session:
         return None
 
 
+    # ----- C07: build a model from a history, leaving out calls whose meaning the properties do not fix -----
+    def live(self, c):
+        return any(x is self.cands[c] for x in self.model.assets)
+
+    def build(self, ops):
+        """run the operations; a call that raises is simply a call that had no effect (C05 judges those)"""
+        m = self.model
+        for op in ops:
+            k, handle = op[0], None
+            if k == "add_asset" and self.live(op[1]): continue
+            if k == "add_assoc":
+                _, _, m1, _, m2 = self.U["links"][op[1]]
+                if not all(self.live(c) for c in m1 + m2): continue
+                handle = self.new_link(op[1])
+            if k in ("remove_assoc", "remove_from_assoc"):
+                inmodel = {h for h, s in enumerate(self.links) if any(x is s for x in m.associations)}
+                handle = self.handle_for(op[-1], inmodel)
+            if k == "add_attacker":
+                t = self.atts[op[1]]
+                if any(x is t for x in m.attackers): continue
+                if not all(any(a is x for x in m.assets) for (a, _) in t.entry_points): continue
+            if k == "add_ep" and not self.live(op[2]): continue
+            self.execute(op, handle)
+        return self
+
+
 def exc_name(e):
     return type(e).__name__
 
@@ -322,18 +347,38 @@ def literal(v):
     return v
 
 
-def defense_names(lg, type_name):
-    """defenses a type defines or inherits, from the language graph's inheritance chain (C06 checks this side)"""
-    a = next(x for x in lg.assets if x.name == type_name)
-    return sorted(s.name for s in a.attack_steps if s.type == "defense")
+def spec_defenses(spec, type_name):
+    """{defense: default} a type defines or inherits, computed from the language specification: 1 when the defense is
+    declared Enabled, else 0 (statement of C06); a redeclaration in a sub-type replaces the inherited one"""
+    by_name = {a["name"]: a for a in spec["assets"]}
+    chain, t = [], type_name
+    while t:
+        chain.append(by_name[t]); t = by_name[t]["superAsset"]
+    out = {}
+    for a in reversed(chain):
+        for st in a["attackSteps"]:
+            if st["type"] == "defense":
+                out[st["name"]] = 1.0 if (st["ttc"] and st["ttc"].get("name") == "Enabled") else 0.0
+            else:
+                out.pop(st["name"], None)
+    return out
 
 
-def full_view(model, lg):
+_SPEC_CACHE = {}
+
+
+def lang_spec(name):
+    if name not in _SPEC_CACHE: _SPEC_CACHE[name] = LANGS[name]()
+    return _SPEC_CACHE[name]
+
+
+def full_view(model, lang_name):
+    spec = lang_spec(lang_name)
     assets = {}
     for a in model.assets:
         t = str(a.type)
         assets[int(a.id)] = {"name": str(a.name), "type": t, "class": type(a).__name__,
-                             "defenses": {d: float(getattr(a, d)) for d in defense_names(lg, t)},
+                             "defenses": {d: float(getattr(a, d)) for d in sorted(spec_defenses(spec, t))},
                              "extras": literal(a.extras) if hasattr(a, "extras") else {}}
     links = []
     for s in model.associations:
